@@ -164,13 +164,20 @@ def check(run, model, tier):
             if any(e is n for n in nodes):
                 return k
         return None
+    def derived_from(expr):
+        """keys whose read is a proper sub-expression of the (resolved) argument: the value is computed from the stored one; whether it is still that value is
+        for the evaluation below to say, not for the key table"""
+        e = resolve_name(expr, ldefs) if expr is not None else None
+        return sorted(k for k, nodes in reads.items() if e is not None and any(x is n for n in nodes for x in ast.walk(e) if x is not e))
     ks, kp = key_of(sig), key_of(pay)
     ok = bool(name_keys) and ks == name_keys[0]
-    run.inst('TABLE.json-rebuild', loads, 'Event(signal=<%s>)' % ks, ok,
-             '' if ok else 'loads builds the event\'s signal from key %r, but the name was written under %r' % (ks, name_keys), node=c, obligation=True)
+    if ok or ks is not None or not derived_from(sig):
+        run.inst('TABLE.json-rebuild', loads, 'Event(signal=<%s>)' % ks, ok,
+                 '' if ok else 'loads builds the event\'s signal from key %r, but the name was written under %r' % (ks, name_keys), node=c, obligation=True)
     ok = bool(payload_keys) and kp == payload_keys[0]
-    run.inst('TABLE.json-rebuild', loads, 'Event(payload=<%s>)' % kp, ok,
-             '' if ok else 'loads builds the event\'s payload from key %r, but the payload was written under %r' % (kp, payload_keys), node=c, obligation=True)
+    if ok or kp is not None or not derived_from(pay):
+        run.inst('TABLE.json-rebuild', loads, 'Event(payload=<%s>)' % kp, ok,
+                 '' if ok else 'loads builds the event\'s payload from key %r, but the payload was written under %r' % (kp, payload_keys), node=c, obligation=True)
     ret_ok = any(isinstance(n, ast.Return) and n.value is not None and resolve_name(n.value, ldefs) is c for n in walk_shallow(loads.node))
     run.inst('TABLE.json-rebuild', loads, 'returns the rebuilt event', ret_ok, 'loads does not return the event it rebuilt', node=c)
     # Event.__init__ with a str registers/looks up the number (C25 checks the registry itself)
@@ -193,9 +200,12 @@ def check(run, model, tier):
     # the event handed to dumps is a real Event: its own (pure) methods are available to the evaluated code
     emethods = {k: f_.node for k, f_ in ev.methods.items() if k not in ('__init__', 'dumps', 'loads')}
     bad = None
+    # any string is a signal name, and names are never canonicalised: 'GO ' and 'GO' are two signals
+    names = ['SIG_A', ' padded ', 'tab\t', 'line\n', '', 'two words', 'quote"s', 'h\u00e9llo', 'UPPER_lower']
+    cases = [('SIG_A', P) for P in payloads] + [(N, 'p') for N in names[1:]]
     try:
-        for P in payloads:
-            e0 = pureeval.Obj(signal_name='SIG_A', payload=P, signal=42, __world__=True)
+        for N, P in cases:
+            e0 = pureeval.Obj(signal_name=N, payload=P, signal=42, __world__=True)
             try:
                 text = pureeval.call(dumps.node, [e0], globals_=dict(pureeval.module_constants(model, ev.module), json=json_obj), strict_locals=True, methods=emethods)
                 del built[:]
@@ -203,10 +213,11 @@ def check(run, model, tier):
                 got = (getattr(back, 'signal_name', '<no event>'), getattr(back, 'payload', '<no event>')) if isinstance(back, pureeval.Obj) else ('<%r>' % (back,), None)
             except pureeval.Raised as ex_:
                 got = ('raises ' + ex_.what, None)
-            if (got[0] != 'SIG_A' or got[1] != P or type(got[1]) is not type(P)) and bad is None:
-                bad = (P, got)
-        run.inst('TABLE.roundtrip-eval', dumps, 'loads(dumps(e)) over %d payloads' % len(payloads), bad is None,
-                 '' if bad is None else 'for an event SIG_A with payload %r the trip gives %r / %r' % (bad[0], bad[1][0], bad[1][1]), obligation=True)
+            if (got[0] != N or got[1] != P or type(got[1]) is not type(P)) and bad is None:
+                bad = (N, P, got)
+        run.inst('TABLE.roundtrip-eval', dumps, 'loads(dumps(e)) over %d payloads and %d signal names' % (len(payloads), len(names)), bad is None,
+                 '' if bad is None else ('for an event named %r with payload %r the trip gives the name %r and the payload %r: the receiving process registers/looks up a different signal '
+                                         'or sees a different payload than was sent' % (bad[0], bad[1], bad[2][0], bad[2][1])), obligation=True)
     except AnalysisError as ex_:
         # the table rules alone cannot see which value reaches a key on which path (see the `sweep-payload-*` mutants): without the evaluation the property is not decided
         raise AnalysisError('Event.dumps/loads cannot be followed by the evaluator (%s): the round trip is not decided' % ex_)
